@@ -305,7 +305,7 @@ def check_board(case, v):
     v.key = case
     facts = GameFacts(game)
     pstar = None
-    if case.get("exact") and exact.n_strategy_pairs(game) <= 4096:
+    if n <= 40 and exact.n_strategy_pairs(game) <= (4096 if case.get("exact") else 512):
         pstar = exact.reach_values(game)
         v.cls("board_exact")
     else:
@@ -329,7 +329,12 @@ def check_board(case, v):
     worst = max(abs(a - b) for a, b in zip(res, phat))
     if worst > theta + SLACK:
         v.fail("residual-above-threshold", f"board: |B p - p| = {worst:.3g} > theta")
+    # independent iteration from below; only usable as a reference if it really converged (change per
+    # sweep <= 1e-13 before the cap) - on slowly mixing boards it does not, and then it proves nothing
     L, k = jacobi_reach(game, eps=1e-13, vmax_sweeps=20000)
+    converged = k < 20000
+    if not converged:
+        v.cls("independent_iteration_not_converged")
     kstep, _ = jacobi_reach(game, sweeps=min(sweeps, 20000))
     for s in range(n):
         if s in finals:
@@ -338,7 +343,7 @@ def check_board(case, v):
         elif s not in back:
             if phat[s] != 0:
                 v.fail("unreaching-not-0", f"board: state {s} reports {phat[s]!r} without a path to a final state")
-        elif phat[s] > L[s] + 1e-7:
+        elif converged and phat[s] > L[s] + 1e-6:
             v.fail("exceeds-true-value", f"board: state {s} reports {phat[s]!r} > independent iteration {L[s]!r}",
                    sig="board")
         elif phat[s] < kstep[s] - SLACK:
